@@ -1186,3 +1186,14 @@ PROPS["C13"]["claim"] = PROPS["C13"]["claim"] + " Every write of ValueTable::ena
 # ---------------------------------------------------------------- U61 also serves C16 (an I/O error in the middle of log reclamation)
 PROPS["C16"]["kani_units"] = list(PROPS["C16"]["kani_units"]) + ["U61"]
 PROPS["C16"]["claim"] = PROPS["C16"]["claim"] + " An I/O error in the middle of log reclamation (Kani, bounded: Log::clean_logs with fsync failing at an arbitrary call) leaves a suffix of the enacted log files on disk -- the files emptied so far are the oldest ones -- so the reopen replays no older record over a newer state."
+
+# ---------------------------------------------------------------- U81 (Verus: ValueTable::overwrite_chain for a fresh value, unbounded in value length / number of parts)
+UNIT_META["chain_write"] = {"functions": ["table::ValueTable::overwrite_chain (a fresh value: a new slot from the free list, or a slot claimed beforehand)"],
+                            "assumes": ["the entry buffer is a cursor by contract over a ghost description of the part under construction (marker or size word, link, counter, stored key, payload); `enc` is the uninterpreted byte encoding of such a description -- that the cursor functions write exactly these fields at the offsets the reader decodes is what Kani proves on the real Entry (U5, U6-W/R bounded)",
+                                        "`buf.write_slice(&value[a..b])` and `buf[0..buf.offset()].to_vec()` are contracts that require the ranges to be in bounds (shape rewrites, index expressions verbatim); the exec `assert!` on the value size is evaluated in exec mode and then proved (listed rewrite)",
+                                        "next_free is a contract over a ghost set of free slots (a slot that was free, not slot 0, no longer free: units free_list / claim_entries); the function takes `&mut self` so that the set can change",
+                                        "geometry: an entry holds the marker, the link, the counter, the stored key and at least one payload byte; entry size below 2^15; value shorter than 2^48 bytes",
+                                        "replacing an existing chain (following its links, releasing surplus parts) is not under this contract: bounded Kani unit U6-W"]}
+PROPS["C06"]["verus_units"] = list(PROPS["C06"].get("verus_units", [])) + ["chain_write"]
+PROPS["C06"]["claim"] = PROPS["C06"]["claim"] + " Writer side for a fresh value, unbounded (Verus: any value length, any number of parts): ValueTable::overwrite_chain lays the value out over a chain of distinct slots starting at the slot it returns -- each part starts where the previous one ended, the first carries the chain marker (or, if the value fits one slot, the size word), the counter 1 of a counted table and the stored key, middle parts carry the continuation marker, every chained part links to the next and holds exactly the payload bytes that fill its slot, the last part carries the size word of what remains -- takes every further slot from the free set, never slot 0, writes no other slot, and takes no out-of-range slice of the value."
+PROPS["C06"]["technique"] = PROPS["C06"]["technique"] + "; Verus contract on the real overwrite_chain (fresh values, unbounded) with the entry cursor by contract"
